@@ -175,6 +175,22 @@ class FaultSched(Scheduling):
                 alloc[t] = new
                 self.fired[k] += 1
                 self.injected.append((clock, oid, t.id, k, new.id))
+        if 'steal' in self.adv['kinds'] and rng.random() < self.adv['rate']:
+            # an algorithm that holds no reservation of its own and helps itself to a machine that sits idle in
+            # another observation's reservation (must be rejected with an error, never executed)
+            f = [m for o in sorted(r['idle']) if o != oid for m in r['idle'][o]]
+            try:
+                from topsim.core.task import TaskStatus as _TS
+                ready = [t for t in sorted(workflow_plan.tasks, key=lambda x: x.id)
+                         if t.task_status is _TS.UNSCHEDULED and t not in alloc
+                         and all(cluster.is_task_finished(p_) for p_ in workflow_plan.graph.predecessors(t))]
+            except Exception:
+                ready = []
+            if f and ready and oid not in r['idle']:
+                t = ready[0]
+                alloc[t] = rng.choice(f)
+                self.fired['steal'] += 1
+                self.injected.append((clock, oid, t.id, 'foreign', alloc[t].id))
         if 'resched' in self.adv['kinds'] and rng.random() < self.adv['rate']:
             done = [t for t in sorted(cluster._tasks['finished'], key=lambda x: x.id)
                     if t.id.startswith(oid + '_') and 'ingest' not in t.id]
